@@ -146,36 +146,35 @@ pub mod restrictions {
         }
     }
 
-    impl CheckRestrictions for i32 {
-        fn check_restrictions(&self, restrictions: Option<Rc<Restrictions>>) -> SoapResult<()> {
-            if let Some(restrictions) = restrictions {
-                if let Some(min_inclusive) = restrictions.min_inclusive {
-                    if *self < min_inclusive {
-                        return Err(SoapError::Restriction("minInclusive restriction not met".to_string()));
-                    }
-                }
-
-                if let Some(max_inclusive) = restrictions.max_inclusive {
-                    if max_inclusive < *self {
-                        return Err(SoapError::Restriction("maxInclusive restriction not met".to_string()));
-                    }
-                }
-
-                if let Some(min_exclusive) = restrictions.min_exclusive {
-                    if *self <= min_exclusive {
-                        return Err(SoapError::Restriction("minExclusive restriction not met".to_string()));
-                    }
-                }
-
-                if let Some(max_exclusive) = restrictions.max_exclusive {
-                    if max_exclusive <= *self {
-                        return Err(SoapError::Restriction("maxExclusive restriction not met".to_string()));
-                    }
+    /// Compares in `i128`, so every integer carrier is checked over its full range.
+    fn check_integer_restrictions(value: i128, restrictions: Option<&Restrictions>) -> SoapResult<()> {
+        if let Some(restrictions) = restrictions {
+            if let Some(min_inclusive) = restrictions.min_inclusive {
+                if value < i128::from(min_inclusive) {
+                    return Err(SoapError::Restriction("minInclusive restriction not met".to_string()));
                 }
             }
 
-            Ok(())
+            if let Some(max_inclusive) = restrictions.max_inclusive {
+                if i128::from(max_inclusive) < value {
+                    return Err(SoapError::Restriction("maxInclusive restriction not met".to_string()));
+                }
+            }
+
+            if let Some(min_exclusive) = restrictions.min_exclusive {
+                if value <= i128::from(min_exclusive) {
+                    return Err(SoapError::Restriction("minExclusive restriction not met".to_string()));
+                }
+            }
+
+            if let Some(max_exclusive) = restrictions.max_exclusive {
+                if i128::from(max_exclusive) <= value {
+                    return Err(SoapError::Restriction("maxExclusive restriction not met".to_string()));
+                }
+            }
         }
+
+        Ok(())
     }
 
     macro_rules! impl_check_restrictions_for_int {
@@ -183,15 +182,14 @@ pub mod restrictions {
         $(
             impl CheckRestrictions for $t {
                 fn check_restrictions(&self, restrictions: Option<Rc<Restrictions>>) -> SoapResult<()> {
-                    let value = i32::try_from(*self).map_err(|e| SoapError::Restriction(e.to_string()))?;
-                    value.check_restrictions(restrictions)
+                    check_integer_restrictions(i128::from(*self), restrictions.as_deref())
                 }
             }
         )*
     }
 }
 
-    impl_check_restrictions_for_int!(i8, u8, i16, u16, u32, i64, u64);
+    impl_check_restrictions_for_int!(i8, u8, i16, u16, i32, u32, i64, u64);
 
     impl CheckRestrictions for bool {
         fn check_restrictions(&self, _restrictions: Option<Rc<Restrictions>>) -> SoapResult<()> {
@@ -256,33 +254,8 @@ pub mod restrictions {
                 return Ok(());
             }
 
-            let value = self.parse::<i32>()?;
-
-            if let Some(min_inclusive) = restrictions.min_inclusive {
-                if value < min_inclusive {
-                    return Err(SoapError::Restriction("minInclusive restriction not met".to_string()));
-                }
-            }
-
-            if let Some(max_inclusive) = restrictions.max_inclusive {
-                if max_inclusive < value {
-                    return Err(SoapError::Restriction("maxInclusive restriction not met".to_string()));
-                }
-            }
-
-            if let Some(min_exclusive) = restrictions.min_exclusive {
-                if value <= min_exclusive {
-                    return Err(SoapError::Restriction("minExclusive restriction not met".to_string()));
-                }
-            }
-
-            if let Some(max_exclusive) = restrictions.max_exclusive {
-                if max_exclusive <= value {
-                    return Err(SoapError::Restriction("maxExclusive restriction not met".to_string()));
-                }
-            }
-
-            Ok(())
+            let value = self.parse::<i128>()?;
+            check_integer_restrictions(value, Some(&restrictions))
         }
     }
 }
